@@ -607,12 +607,8 @@ def _(top):
     top.storage = storage = Memory(4, 4)
     top.port = p = storage.get_port(write_capable=True)
     storage_adr0 = Signal(2, name="storage_adr0")     # user signal named like the helper register LiteX will create
-    top.comb += [p.adr.eq(storage_adr0), p.dat_w.eq(Cat_(L, a, b, c)), p.we.eq(d)]
+    top.comb += [p.adr.eq(storage_adr0), p.dat_w.eq(L["Cat"](a, b, c)), p.we.eq(d)]
     return [d, storage_adr0, p.dat_r]
-
-
-def Cat_(L, *a):
-    return L["Cat"](*a)
 
 
 # ---------------------------------------------------------------------------------------------------- the child
